@@ -144,6 +144,7 @@ pub struct SrcLog {
     pub max_offer: usize,
     pub empty_offers: u64,
     pub last_give: usize,
+    pub overreports: u64,
 }
 
 pub struct Source {
@@ -155,6 +156,7 @@ pub struct Source {
     cut_idx: usize,
     log: Rc<RefCell<SrcLog>>,
     prefill: Rc<RefCell<bool>>,
+    overreported: bool,
 }
 
 impl Source {
@@ -195,6 +197,7 @@ impl Source {
                 cut_idx: 0,
                 log: log.clone(),
                 prefill: Rc::new(RefCell::new(false)),
+                overreported: false,
             },
             log,
         )
@@ -263,6 +266,14 @@ impl Read for Source {
                 n = n.min(cuts[self.cut_idx] - self.pos);
             }
         }
+        if let Some((at, extra)) = self.sched.overreport {
+            if !prefill && !self.overreported && log.data_reads + 1 == at as u64 {
+                // A lying source: copies nothing, keeps its position, reports too many bytes.
+                self.overreported = true;
+                log.overreports += 1;
+                return Ok(buf.len() + 1 + extra as usize);
+            }
+        }
         buf[..n].copy_from_slice(&self.data[self.pos..self.pos + n]);
         self.pos += n;
         log.delivered += n;
@@ -272,11 +283,6 @@ impl Read for Source {
             return Ok(n);
         }
         log.data_reads += 1;
-        if let Some((at, extra)) = self.sched.overreport {
-            if log.data_reads == at as u64 {
-                return Ok(buf.len() + extra as usize);
-            }
-        }
         Ok(n)
     }
 }
